@@ -14,7 +14,7 @@ func init() {
 }
 
 func checkC05(c *Ctx) {
-	c.Rule = "every implemented encoding x lattice (pointers at/around 0x0000/0xFFFF, operands overlapping the instruction bytes, stack overlapping the instruction, taken/untaken for all 256 F, 4 port-device answer patterns, 4 data patterns) ; per Step the multiset of memory reads, the multiset of memory writes (address,value) and the ordered port log (direction,port,value) of the real Step are compared with refz80's. Concrete-type pass as in C01 (DumbMemory of 3 lengths, MapMemory, DumbIO unwrapped vs wrapped; port forms also with a port device that re-points CPU.Memory on every access): same post-state and contents. Environment pass: for every environment variable the package's non-test sources read (found by parsing them), fresh processes with the variable set to 1/true/on/debug/0 execute every pinned encoding from 4 base vectors x 2 F and compare all aspects incl. access logs with refz80. Non-trivial = the Step made a data or port access beyond fetching its own bytes, or changed state beyond PC/R (counted)."
+	c.Rule = "every implemented encoding x lattice (pointers at/around 0x0000/0xFFFF, operands overlapping the instruction bytes, stack overlapping the instruction, taken/untaken for all 256 F, 4 port-device answer patterns, 4 data patterns) ; per Step the multiset of memory reads, the multiset of memory writes (address,value) and the ordered port log (direction,port,value) of the real Step are compared with refz80's. Concrete-type pass as in C01 (DumbMemory of 3 lengths, MapMemory, DumbIO unwrapped vs wrapped; port forms also with a port device that re-points CPU.Memory on every access): same post-state and contents. Environment pass: for every environment variable the package's non-test sources read (found by parsing them), fresh processes with the variable set to 1/true/on/debug/0 execute every pinned encoding from 4 base vectors x 2 F and compare all aspects incl. access logs with refz80. Device shapes: every port instruction with CPU.IO holding a stateless device of an unusual Go shape (nil *T with receiver-free methods, zero-size struct value, named uint8 0, nil map type, nil func type) vs the same value behind a pointer wrapper: same state, memory and calls; RETN/RETI handlers of such shapes notified once. Non-trivial = the Step made a data or port access beyond fetching its own bytes, or changed state beyond PC/R (counted)."
 	c.Bound = "lattice v1 " + c.Tier
 	runStepConformance(c, stepConfOpts{name: "c05/access", aspects: AspReads | AspWrites | AspPortLog})
 	if set, err := implementedSet(c); err == nil {
@@ -26,6 +26,7 @@ func checkC05(c *Ctx) {
 		}
 		runConcreteTypes(c, "c05/concrete", encs, []uint8{0x00, 0xFF})
 		runEnvSense(c, "c05/environment")
+		runDeviceShapes(c, "c05/shapes")
 	}
 	c.Assume("order of the memory accesses inside one Step is not compared (statement: multisets); the port log is compared in order")
 	c.Assume("refz80 reproduces the zexdoc/zexall CRCs (vz80 selfcheck refcrc, run by setup_cmd)")
